@@ -7,7 +7,8 @@ TIMEOUT = 60.0
 CURVES = {'A': ['NIST_P256', 'BSI_P256', 'SM2_P256', 'SECG_K256', 'SM9_P256', 'BN_P256', 'BN_P256', 'BN_P256'],
           'A381': ['B12_P381'],
           'A255': ['CURVE_25519', 'TWEEDLEDUM']}
-TYPES_ALL = ['bn', 'bn', 'bnraw', 'fp', 'fp2', 'fp3', 'fp4', 'fp6', 'fp8', 'fp12', 'fb', 'ep', 'ep', 'ep', 'eb', 'eb']
+TYPES_ALL = ['bn', 'bn', 'bnraw', 'fp', 'fp2', 'fp3', 'fp4', 'fp6', 'fp8', 'fp12', 'fb', 'ep', 'ep', 'ep', 'eb', 'eb', 'HI']
+HI_TOWERS = {'fp9': (9, 0), 'fp16': (16, 0), 'fp18': (18, 12), 'fp24': (24, 16), 'fp48': (48, 32), 'fp54': (54, 36)}
 TYPES_PC = ['g1', 'g2', 'g2', 'ep2', 'ep2', 'gt', 'gt']
 GENS = {
     'bn': ['rand', 'rand', 'rand', 'zero', 'one', 'max', 'small'],
@@ -16,6 +17,8 @@ GENS = {
     'fp2': ['rand', 'rand', 'cyc', 'cyc', 'zero', 'one', 'max'],
     'fp3': ['rand', 'zero', 'max'], 'fp4': ['rand', 'zero', 'max'], 'fp6': ['rand', 'zero', 'max'],
     'fp8': ['rand', 'zero', 'max'],
+    'fp9': ['rand', 'zero', 'max'], 'fp16': ['rand', 'zero', 'max'], 'fp18': ['rand', 'zero', 'max'], 'fp24': ['rand', 'zero', 'max'],
+    'fp48': ['rand', 'zero', 'max'], 'fp54': ['rand', 'zero', 'max'],
     'fp12': ['rand', 'cyc', 'cyc', 'zero', 'one', 'max'],
     'fb': ['rand', 'rand', 'zero', 'one', 'max'],
     'ep': ['rand', 'rand', 'proj', 'gen', 'inf'], 'g1': ['rand', 'proj', 'gen', 'inf'],
@@ -66,6 +69,8 @@ def gen_plan(rng, tier, config, opts):
         if r < 62:
             s = rng.below(8)
             t = rng.choice(types)
+            if t == 'HI':
+                t = rng.choice(sorted(HI_TOWERS))
             fmt = rng.below(2) if t in PACKABLE else 0
             g = rng.choice(GENS[t])
             if t in ('fp2', 'fp12') and fmt == 1:
@@ -82,11 +87,15 @@ def gen_plan(rng, tier, config, opts):
             dt = t
             if faulty and rng.chance(0.06):
                 dt = rng.choice(types)     # decoded as another type (misdirected read)
+                if dt == 'HI':
+                    dt = rng.choice(sorted(HI_TOWERS))
             lines.append('DEC %d %s' % (s, dt))
             if rng.chance(0.15):
                 lines.append('DEC %d %s' % (s, dt))    # duplicate delivery
         elif r < 74:
             t = rng.choice(types)
+            if t == 'HI':
+                t = rng.choice(sorted(HI_TOWERS))
             fmt = rng.below(2) if t in PACKABLE and t not in ('fp2', 'fp8', 'fp12') else 0
             delta = rng.choice([-1, -1, -1, 0, 0, 1, 1, -2, 7, -100000]) if faulty else rng.choice([0, 0, 1])
             lines.append('CAPW %s %d %s %d' % (t, fmt, rng.choice(GENS[t]), delta))
@@ -332,6 +341,11 @@ def _validate(typ, data, P):
                 return 'not-decompressible'
             return None
         return 'length'
+    if typ in HI_TOWERS:
+        full, packed = HI_TOWERS[typ]
+        if n == full * F:
+            return None if all(c < p for c in coords(0, full)) else 'coord>=p'
+        return 'length'      # an encoding of the packed length is not handed to the decoder (executor, DEC)
     if typ == 'fp8':
         if n == 8 * F:
             return None if all(c < p for c in coords(0, 8)) else 'coord>=p'
